@@ -108,6 +108,7 @@ def cases(tier, seed):
     for order in (["long", "short"], ["short", "long"], ["long", "short", "mid"], ["mid", "long", "short", "short"]):
         for form in ("executor", "f_timeout"):
             out.append({"name": "ext.timeout/%s/%s" % (form, "-".join(order)), "kind": "tmo", "order": order, "form": form})
+    out.append({"name": "comb.sizes/0-45", "kind": "combsizes", "max": 45})
     combs = ["zip", "and", "or", "sequence", "traverse", "apply", "map", "flat_map", "nocancel", "proxy", "timeout"]
     for c in combs:
         out.append({"name": "comb.end/%s" % c, "kind": "comb", "comb": c, "n": 3 if tier == "quick" else 4})
@@ -724,6 +725,39 @@ def run_comb(case, res):
                 end(ctx)
 
 
+def run_combsizes(case, res):
+    """Every number of inputs from 0 to max: all inputs succeed (beforehand / afterwards) -> the output is done."""
+    for n in range(0, case["max"] + 1):
+        for comb in ("zip", "sequence", "traverse", "apply", "and", "or"):
+            for when in ("before", "after"):
+                if n == 0 and comb in ("apply", "and", "or"):
+                    continue
+                begin("vt")
+                ctx = Ctx()
+                try:
+                    ins = [SpyFuture("in%d" % i) for i in range(n)]
+
+                    def finish_all():
+                        for i, f in enumerate(ins):
+                            try:
+                                f.set_result((lambda *a: len(a)) if (comb == "apply" and i == 0) else 1)
+                            except Exception:
+                                pass  # (f_or has cancelled the inputs it no longer needs)
+                    if when == "before":
+                        finish_all()
+                    out = make_comb(comb, ins)
+                    if when == "after":
+                        finish_all()
+                    res.execs += 1
+                    if not out.done():
+                        res.violation("lost/comb/%s/size" % comb, "f_%s with %d inputs, all succeeded (%s the call): the output is still pending"
+                                      % (comb, n, when))
+                    res.key("combsizes", comb, n, when)
+                finally:
+                    end(ctx)
+    check_common(res)
+
+
 def run_tmo(case, res):
     """Work that never ends by itself: the configured timeout is what ends it."""
     T = {"long": 40.0, "short": 1.0, "mid": 7.0}
@@ -764,6 +798,8 @@ def run_case(case, res):
     if k == "donepair":
         rng = random.Random("c03/%s/%s" % (case["seed"], case["name"]))
         return Sweep(DonePairScenario(case), res, "vt", case["name"]).run(case["cap"], rng, per_site=3)
+    if k == "combsizes":
+        return run_combsizes(case, res)
     if k == "attach":
         return run_attach(case, res)
     if k == "attach-nested":
